@@ -45,7 +45,7 @@ def strip_dev_deps(scratch):
     open(cargo, "w").write("\n".join(out) + "\n")
 
 
-def run_group(scratch, group, timeout=1800):
+def run_group(scratch, group, timeout=1800, only=None):
     """Inject the module, run its #[test]s natively. Returns list of results per check."""
     p = os.path.join(scratch, group.inject)
     if not os.path.exists(p):
@@ -54,7 +54,10 @@ def run_group(scratch, group, timeout=1800):
         f.write('\n#[cfg(verif_replay)]\n#[path = "%s"]\nmod %s;\n' % (group.path, group.modname))
     strip_dev_deps(scratch)
     env = offline_env({"CARGO_TARGET_DIR": kani_leg.REPLAY_TARGET, "RUSTFLAGS": "--cfg verif_replay -A warnings"})
-    cmd = ["cargo", "test", "--offline", "--release", "--lib", group.modname + "::", "--", "--nocapture", "--test-threads", "4"]
+    cmd = ["cargo", "test", "--offline", "--release", "--lib", group.modname + "::", "--", "--nocapture", "--test-threads", "1"]
+    if only:
+        # cargo test takes one filter before `--`; further filters go after it
+        cmd = ["cargo", "test", "--offline", "--release", "--lib", "--"] + [group.modname + "::" + t for t in only] + ["--nocapture", "--test-threads", "1"]
     with kani_leg.target_lock("replay"):
         rc, so, se, wall = run(cmd, cwd=scratch, timeout=timeout, env=env)
     text = so + "\n" + se
@@ -64,16 +67,20 @@ def run_group(scratch, group, timeout=1800):
         raise Undecided("native group %s did not run (build error?):\n%s" % (group.name, "\n".join(text.splitlines()[-30:])))
     results = []
     for name, meta in group.checks.items():
+        if only and name not in only:
+            continue
         m = re.search(r"test \S*%s \.\.\. (\w+)" % re.escape(name), text)
         status = m.group(1) if m else "missing"
         msg = None
         clause = None
         if status != "ok":
-            pm = re.search(r"panicked at [^\n]*\n([^\n]*)", text)
-            msg = pm.group(1) if pm else "native check failed"
+            # the panic message of this test's own thread (caught panics of the code under test also print)
+            pms = re.findall(r"thread '[^']*%s' [^\n]*panicked at [^\n]*\n([^\n]*)" % re.escape(name), text)
+            tagged = [m_ for m_ in pms if kani_leg.CLAUSE_RE.search(m_)]
+            msg = (tagged or pms or ["native check failed"])[-1]
             cm = kani_leg.CLAUSE_RE.search(msg or "")
             clause = cm.group(1) if cm else group.default_clause
-        cases = re.search(r"VERIF-NATIVE cases=(\d+) nontrivial=(\d+)", text)
+        cases = re.search(r"VERIF-NATIVE %s cases=(\d+) nontrivial=(\d+)" % re.escape(name), text)
         results.append({"check": name, "group": group.name, "status": status, "message": msg, "clause": clause,
                         "cases": int(cases.group(1)) if cases else 0, "nontrivial": int(cases.group(2)) if cases else 0,
                         "meta": meta, "wall_s": wall})
